@@ -54,6 +54,7 @@ class Injector:
         self.n = 0
         self.plan = plan  # None | {"k": int, "off": int, "exc": "kbd"|"err"}
         self.fired = None  # (kind, full string or None, delivered chars)
+        self.flush_as_write = False
         self.log = []  # kinds, in order
 
     def exc(self):
@@ -81,10 +82,14 @@ INJ = Injector()
 class Stream(io.TextIOBase):
     """sys.stdout stand-in: records every write call separately"""
 
-    def __init__(self, tty: bool):
+    def __init__(self, tty: bool, buffered: bool = False):
         self.tty = tty
-        self.segments: list[str] = []  # delivered text per write call
+        self.segments: list[str] = []  # delivered text per write call (buffered: per flush)
         self.cut = None  # (index into segments, full intended string)
+        # a buffering stream: write() only buffers, flush() delivers; an interrupted flush delivers a prefix of
+        # the buffer and the rest is lost
+        self.buffered = buffered
+        self.buf = ""
 
     def isatty(self):
         return self.tty
@@ -98,6 +103,11 @@ class Stream(io.TextIOBase):
     def write(self, s):
         if not s:
             return 0
+        if self.buffered:
+            if INJ.tick("write") is not None:  # nothing reaches the terminal from a buffered write
+                raise INJ.exc()
+            self.buf += s
+            return len(s)
         d = INJ.tick("write", s)
         if d is not None:
             self.segments.append(s[:d])
@@ -107,8 +117,28 @@ class Stream(io.TextIOBase):
         return len(s)
 
     def flush(self):
+        if self.buffered:
+            buf, self.buf = self.buf, ""
+            d = INJ.tick("flush", buf)
+            if d is not None:
+                self.segments.append(buf[:d])
+                self.cut = (len(self.segments) - 1, buf)
+                # seen from the terminal this is the interrupted write of `buf`: the model (an unbuffered stream)
+                # is given the fault at the write that filled the buffer
+                INJ.fired = ("write", buf, d)
+                INJ.flush_as_write = True
+                raise INJ.exc()
+            if buf:
+                self.segments.append(buf)
+            return
         if INJ.tick("flush") is not None:
             raise INJ.exc()
+
+    def drain(self):
+        """what is still buffered when the process goes on (delivered by a later flush / at exit)"""
+        if self.buf:
+            self.segments.append(self.buf)
+            self.buf = ""
 
     def getvalue(self):
         return "".join(self.segments)
@@ -198,6 +228,15 @@ def make_gif(n: int, w: int, h: int, seed: int, kinds=None) -> Image.Image:
         if kind == "noise":
             frames.append(Image.frombytes("RGB", (w, h), bytes(rng.randrange(256) for _ in range(w * h * 3))))
             continue
+        if kind == "alpha":  # partly transparent: what is under it shows through
+            im = Image.new("RGBA", (w, h), (rng.randrange(256), 40 * i % 256, rng.randrange(256), 255))
+            px = im.load()
+            for x in range(w):
+                for y in range(h):
+                    if (x + y + i) % 3 == 0:
+                        px[x, y] = (0, 0, 0, 0)
+            frames.append(im)
+            continue
         im = Image.new("RGB", (w, h), (rng.randrange(256), rng.randrange(256), 40 * i % 256))
         px = im.load()
         for _ in range(0 if kind == "flat" else 3):
@@ -207,7 +246,7 @@ def make_gif(n: int, w: int, h: int, seed: int, kinds=None) -> Image.Image:
     if n == 1:
         frames[0].save(b, format="PNG")
     else:
-        frames[0].save(b, format="GIF", save_all=True, append_images=frames[1:], duration=20, loop=0)
+        frames[0].save(b, format="GIF", save_all=True, append_images=frames[1:], duration=20, loop=0, disposal=2)
     b.seek(0)
     return Image.open(b)
 
@@ -232,7 +271,11 @@ def setup_style(d):
 def style_kwargs(d):
     kw = {}
     if d["style"] == "kitty":
-        kw = {"method": d["method"], "mix": d.get("mix", False), "compress": 4}
+        kw = {"method": d["method"], "mix": d.get("mix", False), "compress": d.get("compress", 4)}
+        if d.get("z_index") is not None:
+            kw["z_index"] = d["z_index"]
+        if d.get("blend") is not None:
+            kw["blend"] = d["blend"]
     elif d["style"] == "iterm2":
         kw = {"method": d["method"], "mix": d.get("mix", False)}
     return kw
@@ -327,7 +370,7 @@ def run_new(d) -> RunResult:
     padding = make_padding(d, size)
     ft = FakeTermios(d.get("tattr", "default"))
     new_mod.termios = ft
-    out = Stream(d["tty"])
+    out = Stream(d["tty"], buffered=bool(d.get("buffered")))
     closes = []
     yielded = []
     orig_close, orig_next = RenderIterator.close, RenderIterator.__next__
@@ -361,6 +404,7 @@ def run_new(d) -> RunResult:
             r.outcome = "err " + type(e).__name__
     finally:
         sys.stdout = so
+        out.drain()
         RenderIterator.close, RenderIterator.__next__ = orig_close, orig_next
     r.stream, r.ft = out, ft
     r.nactions, r.log = INJ.n, list(INJ.log)
@@ -539,7 +583,8 @@ def plan_wire(r: RunResult, plan) -> str:
                     break
         else:
             dd = off
-    return f"some {plan['k']} {j} {dd} {plan['exc']}"
+    k = plan["k"] - (1 if INJ.flush_as_write else 0)
+    return f"some {k} {j} {dd} {plan['exc']}"
 
 
 def items_of(r: RunResult) -> list[str]:
@@ -608,6 +653,9 @@ def random_config(rng: random.Random, tier: str, api=None) -> dict:
         d["term"] = rng.choice(["kitty", "konsole"])
         d["kitty_version"] = rng.choice([[0, 25, 0], [0, 30, 1], [0, 20, 0]]) if d["term"] == "kitty" else []
         d["mix"] = rng.random() < 0.3
+        if api == "old":  # style arguments given by the caller of draw()
+            d["z_index"] = rng.choice([None, None, 0, 5, -7, 2**31 - 1])
+            d["compress"] = rng.choice([4, 0, 9])
     elif style == "iterm2":
         d["method"] = rng.choice(["lines", "whole"])
         d["term"] = rng.choice(["iterm2", "wezterm", "wezterm", "konsole"])
@@ -741,7 +789,7 @@ from common.py2lean_specs import with_translation  # noqa: E402
 class C06(Property):
     id = "C06"
     title = "draw() leaves the picture in place and the cursor on the line below it"
-    lean_props = ["TIV.C06.Props", "TIV.C06.Compose", "TIV.C06.Scroll", "TIV.C06.Cover"]
+    lean_props = ["TIV.C06.Props", "TIV.C06.Compose", "TIV.C06.Scroll", "TIV.C06.Cover", "TIV.C06.Placements"]
     driver = DRIVER
     partial = ("that real terminals behave like TIV.Common.Term; a first frame that scrolls the viewport is proved for "
                "line-wise frames (block, kitty/iterm2 LINES) only - whole-image graphics written while part of the box is "
@@ -774,8 +822,24 @@ class C06(Property):
                                     d["dynamic"] = False
                                 d["op"] = "validate"
                                 yield Case("", d, f"validate-grid-{api}-{rel}", True)
+        # old-API kitty animations with style arguments passed to draw(), on kitty <= 0.25.0 (frames cleared by z-index)
+        # and > 0.25.0 (cleared by delete-at-cursor), partly transparent frames: a frame left behind shows through
+        for version in ([0, 25, 0], [0, 30, 1], [0, 21, 2]):
+            for method in ("lines", "whole"):
+                for z in (None, 5, -7):
+                    d = random_config(rng, tier, "old")
+                    d.update(style="kitty", term="kitty", kitty_version=version, method=method, z_index=z,
+                             mix=rng.random() < 0.5, compress=rng.choice([0, 4]),
+                             nframes=rng.choice([2, 3]), animate=True, loops=rng.choice([1, 2]), tty=True,
+                             check_size=True, allow_scroll=False, cols=rng.randrange(2, 7), lines=rng.randrange(1, 5))
+                    d["frame_kinds"] = ["alpha"] * d["nframes"]
+                    d = finish_geometry(rng, d, "fits")
+                    d["op"] = "trace"
+                    yield Case("", d, f"old-kitty-styleargs-{method}", True)
         while True:
             d = finish_geometry(rng, random_config(rng, tier))
+            if d["style"] == "kitty" and d["api"] == "old" and rng.random() < 0.5:
+                d["frame_kinds"] = ["alpha"] * max(d["nframes"], 1)
             anim = d["animate"] and d["nframes"] > 1
             kind = f"{d['api']}-{d['style']}-{'anim' if anim else 'still'}-{d['_rel']}"
             x = rng.random()
@@ -940,6 +1004,19 @@ class C06(Property):
                 f"term.run {W} {H} {kind} {r0} 0 {top0} 0 {tk.wire(toks)}"]))
             want = cells_of(a["writes"])
             inner = None
+            # graphics placements (kitty proper: the code clears earlier frames by z-index or at the cursor): what is left
+            # in the box is the last frame's placements; an earlier frame's placement may only stay when every later
+            # frame is opaque (then it is covered) — with partly transparent frames it shows through
+            if (anim and d["style"] == "kitty" and d.get("term") == "kitty" and d.get("kitty_version")
+                    and "alpha" in (d.get("frame_kinds") or [])):
+                left, last = sorted(got_state["imgs"]), sorted(a["imgs"])
+                if left != last:
+                    import collections
+                    extra = sorted((collections.Counter(left) - collections.Counter(last)).elements())
+                    return Failure(f"placements/{where}/z{'-given' if d.get('z_index') is not None else '-default'}",
+                                   f"after draw() {len(left)} graphics placements are on screen, the last frame has {len(last)}: "
+                                   f"earlier frames were not cleared and show through the last one, e.g. {extra[:3]} "
+                                   f"(kitty {d.get('kitty_version')}, style args z_index={d.get('z_index')} mix={d.get('mix')})")
         got = cells_of(got_state["writes"])
         if d["api"] == "old" and d["style"] == "iterm2" and d.get("term") == "wezterm" and not d.get("mix") and anim:
             # the pre-erase blanks the image's cells first; every cell of the image is drawn over afterwards
